@@ -1,9 +1,12 @@
 (** C07 — non-strict recovery is local: an unknown element is skipped with exactly one warning and the cursor is
-    left exactly behind it; strict mode rejects it with an error that names it.  (That the rest of the file is then
-    loaded "as if it were not there" is the composition with the generic parser: tied by the correspondence run and
-    evaluated by the oracle on the implementation, which compares the models with and without the element.) *)
+    left exactly behind it; strict mode rejects it with an error that names it.  That the block around it
+    is then parsed "as if it were not there" is proved for unknown blocks between the children of a block
+    ([C07_unknown_blocks_between_children_change_nothing]); for unknown keywords and for whole files it is tied by the
+    correspondence run and evaluated by the oracle on the implementation, which compares the models with and without the
+    element. *)
 From Coq Require Import Ascii String List Bool NArith ZArith.
-From A2L Require Import Text.Escape Lex.Tokenizer Gram.Spec Gram.PState Proofs.UnknownProofs.
+From A2L Require Import Text.Escape Lex.Tokenizer Gram.Spec Gram.PState Gram.Parser Gram.TokWriter Proofs.UnknownProofs
+  Proofs.CursorProofs Proofs.RoundTripProofs Proofs.UnknownComposeProofs.
 Import ListNotations.
 
 (* block form:  /begin TAG  u  /end TAG  with any balanced payload u (nested unknown blocks, comments, scalars) *)
@@ -34,6 +37,24 @@ Theorem C07_strict_names_the_unknown_element : forall c tag is_block stop s,
     (RErr (mkDiag "UnknownSubBlock" (Some (ps_last s)) (c_fileid c) tag), s).
 Proof. exact unknown_strict_names_tag. Qed.
 Print Assumptions C07_strict_names_the_unknown_element.
+
+(* Composition with the generic parser, one level: the tagged-item loop of a block (non-strict mode), run on the tokens of
+   its children - in runs [SKids] as the writer emits them - with unknown blocks [SUnknown] (any balanced payload, a tag
+   that is not one of the block's items) anywhere between them, returns the same lists of children, up to layout, as the
+   children alone would give ([fold_left place] over the entries only), and stops in front of the /end of the block.
+   The children themselves are parsed by [rec]; what is assumed about them ([entries_fine]) is what
+   C01_parser_rebuilds_what_the_writer_emits provides. *)
+Theorem C07_unknown_blocks_between_children_change_nothing :
+  forall c, c_fileid c = O -> forall S ftab rec ifuel titems w rx tail,
+  hd_shape tail = Some (TEnd, end_text) ->
+  forall segs kids cms s n, Inv s -> ps_ftab s = ftab -> (length (segs_tokens segs) < n)%nat ->
+  segs_fine S ftab rec titems w rx segs tail -> ps_after s = segs_tokens segs ++ tail ->
+  exists kids' s', tagged_loop S rec ifuel n true true titems c kids cms s = (ROk (kids', cms), s') /\
+    adv (segs_tokens segs) s s' /\
+    forall K, map (map erase) kids = map (map erase) K ->
+              map (map erase) kids' = map (map erase) (fold_left (place rx) (segs_entries segs) K).
+Proof. exact loop_with_unknown_blocks. Qed.
+Print Assumptions C07_unknown_blocks_between_children_change_nothing.
 
 (* non-vacuity: a nested payload is balanced *)
 Example C07_balanced_example :
